@@ -112,11 +112,12 @@ func fromVal(v gen.Val, t string) rv {
 
 // evalCtx carries per-row evaluation state.
 type evalCtx struct {
-	row    gen.Row
-	sawErr bool         // an error / out-of-domain / non-finite value occurred somewhere: only the weak oracle applies
-	why    string       // first reason
-	diffFn bool         // a differential (Execute-defined) function value was used
-	tr     map[*Node]rv // optional trace: value of every node
+	row     gen.Row
+	sawErr  bool         // an error / out-of-domain / non-finite value occurred somewhere: only the weak oracle applies
+	why     string       // first reason
+	diffFn  bool         // a differential (Execute-defined) function value was used
+	tr      map[*Node]rv // optional trace: value of every node
+	negZero bool         // float64 arithmetic produced -0 (normalised to 0): text renderings of it are not compared
 }
 
 func (c *evalCtx) fail(format string, a ...any) rv {
@@ -208,6 +209,9 @@ func (c *evalCtx) eval1(n *Node) rv {
 			return c.fail("non-finite or huge arithmetic result")
 		}
 		if f == 0 {
+			if math.Signbit(f) {
+				c.negZero = true
+			}
 			f = 0 // no negative zero: its sign is not part of the property
 		}
 		return rv{k: 'n', f: f, isInt: isInt && f == math.Trunc(f)}
